@@ -128,6 +128,35 @@ class Repo:
             mod = Mod(name, path, str(rel), src, tree, lines=src.splitlines())
             self._index(mod)
             self.modules[name] = mod
+        self._refuse_rebinding()
+
+    def _refuse_rebinding(self) -> None:
+        """The model binds a method name to the `def` (or class-body alias) it finds in the class.  Code that rebinds methods or functions of
+        the package from outside - `SomeClass.method = f`, `setattr(SomeClass, ...)`, `module.func = g` - would make that model wrong without a
+        trace, so a tree that does it is refused (exit 2) rather than analysed."""
+        for mod in self.modules.values():
+            for n in ast.walk(mod.tree):
+                tg: list[ast.expr] = []
+                if isinstance(n, ast.Assign):
+                    tg = list(n.targets)
+                elif isinstance(n, (ast.AugAssign, ast.AnnAssign)) and getattr(n, "value", None) is not None:
+                    tg = [n.target]
+                for t in tg:
+                    if isinstance(t, ast.Attribute) and isinstance(t.value, ast.Name) and t.value.id not in ("self", "cls"):
+                        r = self.resolve(mod, t.value.id)
+                        # data attributes written through the class are shared state (C11/C12 report them); names of methods / functions are code
+                        is_code = r is not None and ((r[0] == "class" and (any(t.attr in k.methods for k in self.mro(r[1])) or t.attr.startswith(("visit", "enter", "exit"))))  # type: ignore[arg-type]
+                                                     or (r[0] == "module" and (t.attr in r[1].funcs or t.attr in r[1].classes)))  # type: ignore[union-attr]
+                        if is_code:
+                            raise AnalysisError(f"{mod.relpath}:{n.lineno}: `{ast.unparse(t)} = ...` rebinds an attribute of a class or module of the package from "
+                                                "outside; the analysis does not model rebinding")
+                if isinstance(n, ast.Call) and isinstance(n.func, ast.Name) and n.func.id in ("setattr", "delattr") and n.args:
+                    a0 = n.args[0]
+                    r = self.resolve(mod, a0.id) if isinstance(a0, ast.Name) else None
+                    if (r is not None and r[0] in ("class", "module")) or (isinstance(a0, ast.Call) and dotted(a0.func) == "type") \
+                            or (isinstance(a0, ast.Attribute) and a0.attr == "__class__"):
+                        raise AnalysisError(f"{mod.relpath}:{n.lineno}: `{ast.unparse(n)[:80]}` rebinds an attribute of a class or module at run time; "
+                                            "the analysis does not model rebinding")
 
     def _index(self, mod: Mod) -> None:
         for node in self._toplevel(mod.tree.body):
